@@ -343,7 +343,8 @@ def run(chk):
     for (desc, role, script, how), (log, census, growth, alive, err) in zip(hist, outcomes):
         cid = len(cases) + 1
         cases.append({'id': cid, 'ev': log, 'census': census, 'growth': growth})
-        descs[cid] = {'history': desc, 'role': role, 'loop_alive': alive, 'loop_error': err}
+        descs[cid] = {'history': desc, 'role': role, 'loop_alive': alive, 'loop_error': err, 'upstream': how,
+                      'script': [[x.decode('latin1')[:400] if isinstance(x, bytes) else x for x in st] for st in script]}
     # ---- the upstream connection pool (not anchored in a listed property; part of "what is opened is closed") -------------------
     r = tlc.run('Pool', 'Pool.cfg', workers=8, timeout=300)
     chk.add_tlc('Pool (acquire / retain / release / sweep, exhaustive)', r, exhaustive=True)
